@@ -222,10 +222,36 @@ def run_tu(a):
     return idx, res
 
 
+HEADER_TYPES = r'''
+#include <stddef.h>
+#include <stdarg.h>
+#include <stdbool.h>
+#include <stdalign.h>
+#include <stdnoreturn.h>
+#include <stdatomic.h>
+#include <stdio.h>
+#define SA(T) printf(#T " size=%d align=%d\n", (int)sizeof(T), (int)_Alignof(T))
+#define SG(T) printf("signed:" #T " %d\n", (T)-1 < (T)0)
+#define VI(M) printf(#M " %lld\n", (long long)(M))
+struct with_max { char c; max_align_t m; char d; }; struct with_va { char c; va_list v; }; struct with_flag { char c; atomic_flag f; atomic_long l; };
+int main(void) {
+  SA(size_t); SA(ptrdiff_t); SA(wchar_t); SA(max_align_t); SA(va_list); SA(bool); SA(atomic_flag); SA(atomic_int); SA(atomic_long); SA(atomic_bool); SA(atomic_char); SA(atomic_short);
+  SA(atomic_uintptr_t); SA(atomic_size_t); SA(atomic_llong); SA(atomic_ullong); SA(atomic_intmax_t); SA(atomic_ptrdiff_t); SA(memory_order); SA(struct with_max); SA(struct with_va); SA(struct with_flag);
+  SG(size_t); SG(ptrdiff_t); SG(wchar_t); SG(bool);
+  VI(true); VI(false); VI(__bool_true_false_are_defined); VI(__alignas_is_defined); VI(__alignof_is_defined); VI(sizeof(NULL)); VI(offsetof(struct with_max, m)); VI(offsetof(struct with_max, d));
+  VI(offsetof(struct with_va, v)); VI(offsetof(struct with_flag, l)); VI(sizeof(offsetof(struct with_va, v))); VI(alignof(max_align_t)); VI(sizeof(true)); VI((size_t)-1 > 0); VI(sizeof((char *)0 - (char *)0));
+  VI(memory_order_relaxed); VI(memory_order_consume); VI(memory_order_acquire); VI(memory_order_release); VI(memory_order_acq_rel); VI(memory_order_seq_cst);
+  return 0;
+}
+'''
+
+
 def run(ctx):
     cc = ctx.build('plain')
     work = ctx.tmpdir('c08')
     rng = ctx.rng
+    # the types the compiler's own headers define are shared with other compilers' objects like any other type
+    core.header_probe(ctx, cc, work, 'header_types', HEADER_TYPES, 'C08|header|%s')
     ctx.rule = ('specifier spellings: every permutation of every valid C11 specifier multiset (plus a qualified variant); layouts: random aggregates, '
                 'each observed by sizeof/_Alignof/offset of every member designator/one bit image per bit-field/one whole-object image; declarators via sizeof; '
                 'distinct = distinct spellings + distinct aggregate feature sets + declarators')
